@@ -93,7 +93,10 @@ def make_entries(fmt, n, lens, rng):
             out.append(f">s{num if l else 'z%d' % i}\n{_w(rng, l)}\n")
         elif fmt.startswith("fasta"):
             width = int(fmt[5:] or 80) if fmt != "fasta" else 80
-            s = _w(rng, max(l, 1))
+            if l == 0:        # a record WITHOUT any sequence line (only the empty-sequence cases ask for it)
+                out.append(f">sz{i}\n")
+                continue
+            s = _w(rng, l)
             out.append(f">s{num}\n" + "".join(s[j:j + width] + "\n" for j in range(0, len(s), width)))
         else:
             raise ValueError(fmt)
@@ -251,6 +254,17 @@ def cases(tier, rng):
                 for k in ks:
                     for gz, nl, lazy in (itertools.product((False, True), (True, False), (True, False)) if big else [(rng.random() < 0.5, True, rng.random() < 0.5), (False, False, False)]):
                         yield {"op": "entries", "fmt": fmt, "header": header, "ents": ents, "gz": gz, "nl": nl, "crlf": False, "lazy": lazy, "k": k,
+                               "longest": max(len(e) for e in ents) + 2}
+    # --- wrapped FASTA whose records have 0, 1 and several sequence lines (line totals that "look like" another layout)
+    for fmt in ("fasta2", "fasta3"):
+        for lens in ([2, 0, 4], [0, 5, 0], [5, 0, 1], [0, 0, 6], [3, 0, 7, 0]):
+            for n in ((len(lens), len(lens) + 2) if big else (len(lens),)):
+                ents, header = make_entries(fmt, n, lens, rng)
+                L = len("".join(ents))
+                ks = list(range(1, L + 3)) if big else sorted(set(rng.sample(range(1, L + 3), min(8, L + 2)) + [L, L + 1]))
+                for k in ks:
+                    for gz, nl, lazy in (itertools.product((False, True), (True, False), (True, False)) if big else [(rng.random() < 0.5, True, rng.random() < 0.5), (False, False, False)]):
+                        yield {"op": "entries", "fmt": "fasta", "header": header, "ents": ents, "gz": gz, "nl": nl, "crlf": False, "lazy": lazy, "k": k,
                                "longest": max(len(e) for e in ents) + 2}
     # --- the chunks joined as tables (np.concatenate), after a field of only some of them was looked at
     for fmt in fmts:
